@@ -23,6 +23,7 @@ macro_rules! fixed {
     ($c:expr, $op:expr, $a:expr, $self_clone:expr) => {{
         match $op {
             "update" => { let b = bytes(arg($a, 1)?)?; $c.update(&b); Ok("-".into()) }
+            "update_rep" => { let b = bytes(arg($a, 1)?)?; let n = usizea(arg($a, 2)?)?; for _ in 0..n { $c.update(&b); } Ok("-".into()) }
             "finalize" => Ok(ohex(&$c.finalize())),
             "finalize_reset" => Ok(ohex(&$c.finalize_reset())),
             "digest" => Ok(ohex(&$c.digest())),
@@ -39,6 +40,7 @@ macro_rules! shake {
         match $op {
             "update" => { let b = bytes(arg($a, 1)?)?; $c.update(&b); Ok("-".into()) }
             "inject" => { let b = bytes(arg($a, 1)?)?; $c.inject(&b); Ok("-".into()) }
+            "update_rep" => { let b = bytes(arg($a, 1)?)?; let n = usizea(arg($a, 2)?)?; for _ in 0..n { $c.inject(&b); } Ok("-".into()) }
             "flip" => { $c.flip(); Ok("-".into()) }
             "extract" => { let n = usizea(arg($a, 1)?)?; let mut o = vec![0u8; n]; $c.extract(&mut o); Ok(ohex(&o)) }
             "flip_extract" => { let n = usizea(arg($a, 1)?)?; let mut o = vec![0u8; n]; $c.flip_extract(&mut o); Ok(ohex(&o)) }
@@ -132,6 +134,7 @@ pub fn dispatch(op: &str, a: &[&str], r: &mut HashRegs) -> R {
                 Ctx::X128(c) => shake!(c, op, a), Ctx::X256(c) => shake!(c, op, a),
                 Ctx::B2(c, n) => match op {
                     "update" => { let b = bytes(arg(a, 1)?)?; c.update(&b); Ok("-".into()) }
+                    "update_rep" => { let b = bytes(arg(a, 1)?)?; let n = usizea(arg(a, 2)?)?; for _ in 0..n { c.update(&b); } Ok("-".into()) }
                     "reset" => { c.reset(); Ok("-".into()) }
                     "finalize_write" => { let mut o = [0u8; 40]; let k = c.finalize_write(&mut o); Ok(format!("{} {}", ohex(&o[..k]), *n)) }
                     "finalize_reset_write" => { let mut o = [0u8; 40]; let k = c.finalize_reset_write(&mut o); Ok(format!("{} {}", ohex(&o[..k]), *n)) }
@@ -139,6 +142,7 @@ pub fn dispatch(op: &str, a: &[&str], r: &mut HashRegs) -> R {
                 },
                 Ctx::B2K(c, n) => match op {
                     "update" => { let b = bytes(arg(a, 1)?)?; c.update(&b); Ok("-".into()) }
+                    "update_rep" => { let b = bytes(arg(a, 1)?)?; let n = usizea(arg(a, 2)?)?; for _ in 0..n { c.update(&b); } Ok("-".into()) }
                     "reset" => { c.reset(); Ok("-".into()) }
                     "finalize_write" => { let mut o = [0u8; 40]; let k = c.finalize_write(&mut o); Ok(format!("{} {}", ohex(&o[..k]), *n)) }
                     "finalize_reset_write" => { let mut o = [0u8; 40]; let k = c.finalize_reset_write(&mut o); Ok(format!("{} {}", ohex(&o[..k]), *n)) }
@@ -146,6 +150,7 @@ pub fn dispatch(op: &str, a: &[&str], r: &mut HashRegs) -> R {
                 },
                 Ctx::B2_256(c) => match op {
                     "update" => { let b = bytes(arg(a, 1)?)?; c.update(&b); Ok("-".into()) }
+                    "update_rep" => { let b = bytes(arg(a, 1)?)?; let n = usizea(arg(a, 2)?)?; for _ in 0..n { c.update(&b); } Ok("-".into()) }
                     "finalize" => Ok(ohex(&c.finalize())),
                     "finalize_reset" => Ok(ohex(&c.finalize_reset())),
                     "finalize_write" => { let mut o = [0u8; 40]; let k = c.finalize_write(&mut o); Ok(ohex(&o[..k])) }
